@@ -113,7 +113,12 @@ def plan(tier, seed):
                         if max(mm) > 1:
                             yield ("mono2", idx, mm)
 
-    space = {"dataset_entries": len(ds), "corpus_triples": len(corp), "generated_entries": len(GENERATED), "small_scope_training_sets": sum(1 for k in (2, 3) for idx in itertools.product(range(n), repeat=k) if len({ld[i][1] for i in idx}) == 2), "copies": [1, 2, 5]}
+        # long traces under heavy duplication: the log-odds must not drop anywhere along the chain of 1..N copies
+        for L in (4, 6, 9, 10, 12, 16):
+            for negkind in ("prefix", "disjoint", "same_tokens_other_order"):
+                yield ("mono3", L, negkind, 40 if tier == "quick" else 160)
+
+    space = {"long_trace_duplication_chains": 18, "dataset_entries": len(ds), "corpus_triples": len(corp), "generated_entries": len(GENERATED), "small_scope_training_sets": sum(1 for k in (2, 3) for idx in itertools.product(range(n), repeat=k) if len({ld[i][1] for i in idx}) == 2), "copies": [1, 2, 5]}
     return {"space": space, "cases": gen(), "chunk": 16, "hash_distinct": True}
 
 
@@ -191,6 +196,29 @@ def run_case(case):
         _cmp(list(zip(Xs, ys)), exp, "run_corpus({!r}, {})".format(target, tests), v, "run_corpus")
         labels = {y for _, y in exp}
         return {"o": "corpus:" + ("ok" if not v else "bad"), "nt": len(labels) == 2, "v": v, "st": {"samples": len(exp)}}
+    if kind == "mono3":
+        from ctparse.nb_scorer import train_naive_bayes
+
+        _, L, negkind, top = case
+        pos = ["r%d" % i for i in range(L)]
+        neg = {"prefix": pos[: L // 2] + ["q%d" % i for i in range(L - L // 2)], "disjoint": ["q%d" % i for i in range(L)], "same_tokens_other_order": pos[::-1]}[negkind]
+        X0 = [pos, neg, neg[:2], pos[:1] + ["z"]]
+        y0 = [True, False, False, True]
+        prev = None
+        strict = False
+        counts = list(range(0, 12)) + [int(round(12 * 1.09 ** i)) for i in range(1, 200)]
+        counts = sorted({c for c in counts if c <= top * 4})
+        for c in counts:
+            m2 = train_naive_bayes(X0 + [pos] * c, y0 + [True] * c)
+            p_ = m2.predict_log_proba([pos])[0]
+            cur = p_[1] - p_[0]
+            if prev is not None and cur < prev[1] - 1e-9:
+                v.append(viol({"kind": "duplication_lowers_score", "family": "long_trace"}, "trace of {} rules ({} negative): {} copies give log-odds {} but {} copies give {}".format(L, negkind, prev[0], prev[1], c, cur)))
+                break
+            if prev is not None and cur > prev[1] + 1e-12:
+                strict = True
+            prev = (c, cur)
+        return {"o": "mono3:" + ("ok" if not v else "bad"), "nt": strict, "v": v[:2], "st": {"retrainings": len(counts)}}
     if kind in ("mono", "mono2"):
         from ctparse.nb_scorer import train_naive_bayes
 
